@@ -55,6 +55,44 @@ def has_cache(d):
     return any(L["T"] in CACHE_T for L in lv)
 
 
+def features(items):
+    """which parts of the model the emitted behaviours exercise (non-vacuity of the actions), for the evidence file"""
+    f = {}
+
+    def inc(k):
+        f[k] = f.get(k, 0) + 1
+    for it in items:
+        d = it["d"]
+        lv = d["lv"]
+        inc("untyped" if all(L["T"] == -1 for L in lv) else "typed")
+        if it.get("deep"):
+            inc("deep_%d_levels" % len(lv))
+        if d["ratt"] or any(L["att"] for L in lv):
+            inc("attached_numa")
+            if sum(1 for L in lv if L["att"]) + (1 if d["ratt"] else 0) > 1:
+                inc("attached_at_several_depths")
+        elif any(L["T"] == 14 for L in lv):
+            inc("numa_level")
+        else:
+            inc("implicit_numa")
+        inc("pu_idx_" + lv[-1]["idx"]["k"])
+        for L in lv[:-1]:
+            if L["idx"]["k"] != "none":
+                inc("numa_level_idx_" + L["idx"]["k"])
+        if any(a["idx"]["k"] != "none" for a in d["ratt"] + [a for L in lv for a in L["att"]]):
+            inc("attached_idx_list")
+        if d["rattr"] or any(L["size"] for L in lv):
+            inc("explicit_sizes")
+        if any(L["T"] == 13 for L in lv):
+            inc("group_level")
+        if any(L["T"] == 2 for L in lv):
+            inc("die_level")
+        if has_cache(d):
+            inc("cache_level")
+        inc("perturb_" + (it["pert"][0] if it["pert"] else "none"))
+    return f
+
+
 def model_behaviours(item, k):
     """behaviour texts for one model-emitted description; descriptions with cache levels get a dedicated behaviour for the
     NO_EXTENDED_TYPES flag words (known finding C07-noext-cache: the generic 'Cache' item is not parsed back)"""
@@ -223,11 +261,13 @@ def hostile_behaviour(s):
     prod = arity_product(s)
     if max_number(s) > 1000000:
         prod = 1 << 40       # an os_index of 4e9 makes every cpuset a 512 MB bitmap: parse only
-    if prod <= 64 and len(s) < 3000:
+    # upper bound of the number of objects: every level and every attached item may exist once per object of the widest level
+    est = prod * (s.count(b"[") + s.count(b":") + len(re.findall(rb"(?:^|[ \n])[0-9]", s)) + 2)
+    if est <= 300:
         lines += ["load 1", "export 40 1 0:1 2:0 4:1 6:0 8:0 10:0 12:0 14:1 16:0"]
-    elif prod <= 128:
+    elif est <= 700:
         lines += ["load 1"]
-    elif prod <= 4096:
+    elif est <= 30000:
         lines += ["load 0"]          # looked at for crashes only: WellFormed on thousands of objects is too slow for TLC
     lines.append("end")
     return "\n".join(lines) + "\n"
@@ -345,6 +385,6 @@ def run(ctx, replay=None):
         assumptions=["default type filters (instruction caches and memory-side caches are not built)",
                      "level types appear in the conventional order Package, Die, L3, L2, L1, Core (hwloc orders identical objects by type, not by position)",
                      "the order convention of an explicit index list on NUMA nodes attached at several depths is not documented: only the set of indexes is demanded there",
-                     "hostile strings whose arity product exceeds 4096 are parsed but not loaded"],
+                     "hostile strings that may describe more than 30000 objects, or that contain a number above 10^6 (a 512 MB cpuset per object), are parsed but not loaded; between 700 and 30000 objects the load is only watched for crashes"],
         exhaustive=False,
-        extra={"model_behaviours": n_model, "hostile_strings": len(hs), "descriptions": len(items)})
+        extra={"model_behaviours": n_model, "hostile_strings": len(hs), "descriptions": len(items), "features": features(items)})
